@@ -1093,7 +1093,7 @@ def corr_subst(ck, n):
 def corr_resolve(ck, n):
     """resolve_tlib_cells(): model (resolveCells = substitute folded over the snapshot of the nodes) vs real code"""
     rng = ck.rng
-    raised = covered = covered_ds = covered_gen = covered_gen_only = covered_ds_gen = run_cov = run_cov_multi = 0
+    raised = covered = covered_ds = covered_gen = covered_gen_only = covered_ds_gen = run_cov = run_cov_multi = static_cov = static_cov_multi = 0
     import collections
     ds_tally = collections.Counter()
     for it in range(n):
@@ -1177,7 +1177,7 @@ def corr_resolve(ck, n):
         # original circuit wfNoTrail with gap-free forks (domain facts of the generators), libOKB (domain fact for the built-in libraries:
         # theorem library_impls_ok), resolveInstB (per-instance clauses on the circuit as it is when the substitution starts; does not
         # contain success).  Inside them the model returns a circuit with wfNoTrail and gap-free forks (theorem) - so must the real code.
-        runtag = 'runSome-hyp:not-evaluated'
+        runtag = 'runSome-hyp:not-evaluated'; statictag = 'runSome-static-hyp:not-evaluated'
         try:
             rh = common.run_driver(['resolveok' + req[len('resolve'):]])[0].split()
             if len(rh) < 15:
@@ -1199,12 +1199,38 @@ def corr_resolve(ck, n):
                     runtag = 'runSome-hyp:uncovered:' + (rh[11] if rfailed[0] == 'inst' else rfailed[0])
                     if rfailed[0] in ('host-wfNoTrail', 'host-forks-gapfree') or (rfailed[0] == 'libOK' and libtag in LIBS):
                         ck.broken_tie('resolve_run_isSome: domain fact fails on a generated case', rfailed[0], inp={'request': req[:4000]})
+                # STATIC hypothesis of C10.resolve_isSome_static (field 15: resolveStaticB, evaluated on the ORIGINAL circuit only; never runs
+                # substitute).  Domain facts + resolveStaticB => resolveInstB (theorem), the model and the real code succeed.  The built-in
+                # libraries x generated circuits must be inside (the generators produce distinct instance names and no `~` names).
+                if len(rh) < 16:
+                    ck.broken_tie('resolve_isSome_static hypotheses', f'driver answer has {len(rh)} fields', inp={'request': req[:4000]})
+                else:
+                    snames = ['host-wfNoTrail', 'host-forks-gapfree', 'libOK', 'static']
+                    svals = [rh[4], rh[8], rh[9], rh[15]]
+                    sfailed = [nm for nm, v in zip(snames, svals) if v != '1']
+                    if not sfailed:
+                        statictag = 'runSome-static-hyp:covered'; static_cov += 1
+                        if len(insts0) >= 2: static_cov_multi += 1
+                        if rh[10] != '1':
+                            ck.broken_tie('resolve_isSome_static: resolveStaticB must imply resolveInstB (theorem)',
+                                          f'resolveInstB = {rh[10]} ({rh[11]})', inp={'request': req[:4000]})
+                        if real == 'raise' or rh[13] != '1' or rh[6] != '1' or rh[14] != '1':
+                            ck.broken_tie('resolve_isSome_static: inside the static hypotheses the run must succeed (result wfNoTrail, '
+                                          'gap-free forks)', f'real {"raises" if real == "raise" else "returns"}, model isSome = {rh[13]}, '
+                                          f'wfNoTrail = {rh[6]}, forksDense = {rh[14]}', inp={'request': req[:4000]})
+                    else:
+                        statictag = 'runSome-static-hyp:uncovered:' + sfailed[0]
+                        if libtag in LIBS and real != 'raise':
+                            ck.broken_tie('resolve_isSome_static: a generated circuit over a built-in library on which the real code '
+                                          'succeeds must be inside the static hypotheses', sfailed[0], inp={'request': req[:4000]})
         except Exception as ex:
             ck.broken_tie('resolve_run_isSome hypotheses', f'driver: {type(ex).__name__}: {ex}'[:300], inp={'request': req[:4000]})
         ck.case(key=('resolve', req), nontrivial=real != 'raise' and len(kinds) > 0,
-                tag=['stream:corr-resolve', f'lib:{libtag}', f'instances:{min(len(kinds), 4)}', f"resolve-result:{'raise' if real == 'raise' else 'ok'}", semtag, dstag, runtag] +
+                tag=['stream:corr-resolve', f'lib:{libtag}', f'instances:{min(len(kinds), 4)}', f"resolve-result:{'raise' if real == 'raise' else 'ok'}", semtag, dstag, runtag, statictag] +
                     (['gen:listed-families-only'] if only else []))
     ck.extra['corr_resolve_in_hypotheses_of_resolve_run_isSome'] = run_cov
+    ck.extra['corr_resolve_in_hypotheses_of_resolve_isSome_static'] = static_cov
+    ck.extra['corr_resolve_in_hypotheses_of_resolve_isSome_static_two_or_more_instances'] = static_cov_multi
     ck.extra['corr_resolve_in_hypotheses_of_resolve_run_isSome_two_or_more_instances'] = run_cov_multi
     ck.extra['corr_resolve_in_hypotheses_of_resolve_datasheet_sem'] = covered_ds
     ck.extra['corr_resolve_in_hypotheses_of_resolve_datasheet_sem_general_only'] = covered_ds_gen
